@@ -170,6 +170,36 @@ theorem file_name_eq_spec (s : List Nat) (hs : WFU s) :
   obtain ⟨cs, rfl, _⟩ := (wfu_iff s).1 hs
   simpa using pathFileName_eq cs
 
+/-- **no bound on the last component**: behind any prefix, a separator followed by a non-empty
+separator-free component of ANY length (NAME_MAX = 255 and beyond included) — `path_file_name` is that
+component -/
+theorem file_name_any_component_length (pre comp : List Nat) (hcs : 47 ∉ comp) (hne : comp ≠ []) :
+    pathFileName (pre ++ 47 :: comp ++ [0]) = .ok (some (comp ++ [0])) := by
+  have h := pathFileName_eq (pre ++ 47 :: comp)
+  simp only [fileNameSpec, afterLastSlash_append comp hcs pre, hne, if_false, Option.map_some] at h
+  simpa using h
+
+/-- … and `parent_path` is the prefix, however long the component behind the last separator is -/
+theorem parent_any_component_length (pre comp : List Nat) (hcs : 47 ∉ comp) (hne : comp ≠ [])
+    (hp : pre ≠ []) (hl : pre.getLast? ≠ some 47) :
+    parentPath (pre ++ 47 :: comp ++ [0]) = .ok (some (pre ++ [0])) := by
+  have h := parentPath_eq (pre ++ 47 :: comp)
+  have hlen : ¬ ((pre ++ 47 :: comp).length < 2) := by
+    have : 0 < comp.length := List.length_pos_iff.2 hne
+    simp; omega
+  simp only [parentSpec, hlen, beforeLastSlash_append comp hcs pre, hl, hp, if_false, Option.map_some] at h
+  simpa using h
+
+/-- no separator at all: both are `None`, for every length -/
+theorem no_separator_none (c : List Nat) (hcs : 47 ∉ c) :
+    pathFileName (c ++ [0]) = .ok none ∧ parentPath (c ++ [0]) = .ok none := by
+  refine ⟨?_, ?_⟩
+  · have h := pathFileName_eq c
+    simpa [fileNameSpec, afterLastSlash_no_slash c hcs] using h
+  · have h := parentPath_eq c
+    simp only [parentSpec, beforeLastSlash_no_slash c hcs] at h
+    by_cases hl : c.length < 2 <;> simpa [hl] using h
+
 /-- what the split functions return really is a split at the LAST separator -/
 theorem split_at_last_slash (c p r : List Nat) :
     (beforeLastSlash c = some p → ∃ t, c = p ++ 47 :: t ∧ 47 ∉ t) ∧
@@ -221,6 +251,13 @@ example : joinSpec [97, 47, 47] [47, 98] = [97, 47, 47, 98] := by decide
 example : parentSpec [47, 97] = some [47] := by decide
 example : parentSpec [97, 47, 47, 98] = none := by decide
 example : fileNameSpec [97, 47] = none := by decide
+/-- beyond the short range: `/tmp/<255-byte name>` and a 4096-byte component -/
+example : pathFileName ([47, 116, 109, 112] ++ 47 :: List.replicate 255 120 ++ [0]) = .ok (some (List.replicate 255 120 ++ [0])) :=
+  file_name_any_component_length _ _ (not_mem_replicate _ (by decide)) (replicate_ne_nil _ (by decide))
+example : pathFileName ([] ++ 47 :: List.replicate 4096 120 ++ [0]) = .ok (some (List.replicate 4096 120 ++ [0])) :=
+  file_name_any_component_length _ _ (not_mem_replicate _ (by decide)) (replicate_ne_nil _ (by decide))
+example : parentPath ([47, 116, 109, 112] ++ 47 :: List.replicate 255 120 ++ [0]) = .ok (some [47, 116, 109, 112, 0]) :=
+  parent_any_component_length _ _ (not_mem_replicate _ (by decide)) (replicate_ne_nil _ (by decide)) (by simp) (by simp)
 /-- the parent of a path with a trailing separator is the path without it (split at the LAST separator);
 the never-executed doc example in unix_str.rs claims `/home/gramar` for `/home/gramar/code/` -/
 example : parentSpec [47, 97, 47, 98, 47] = some [47, 97, 47, 98] := by decide
